@@ -1,6 +1,10 @@
 """C09 — optimisation is reproducible from the seed and independent of the storage.
 
-regenerate: T-sites inventory of every `_trial_id` use in samplers / pruners + the reseed flag of the
+regenerate: T-ga (verif/translators/tga.py via verif/props/c09_gen.py): BaseGASampler.get_trial_generation / get_population /
+            get_parent_population, NSGAIISampler.select_parent / sample_relative and the cache sites of NSGA-III as statement IR ->
+            lean/OptunaVerif/Generated/GaMethods.lean; Props/C09Gen.lean proves the interpreter equal to Model/GACache.lean for all inputs
+            and restates the cache theorems (round trip iff ids are indices = F7, generations / populations id-independent)
+            T-sites inventory of every `_trial_id` use in samplers / pruners + the reseed flag of the
             sequential optimize path -> lean/OptunaVerif/Generated/TrialIdSites.lean
 prove:      Props/C09.lean (loop_storage_independent, loop_refines_erased, split_irrelevant, GA cache
             round trip / F7 for every offset, copy_preserves_fields, sites_allowed)
@@ -26,6 +30,7 @@ import time
 from typing import Any
 
 from verif import core, fleet
+from verif.props import c09_gen
 from verif.translators import trial_id_sites
 
 RULE = (
@@ -619,11 +624,14 @@ def main(chk: core.Check) -> int:
     t = trial_id_sites.regenerate(chk)
     chk.extra["trial_id_sites"] = {"n": len(t["sites"]), "non_storage_arg": [s for s in t["sites"] if s["kind"] != "storageArg"],
                                    "reseed_sampler_rng_sequential": t["reseed"]}
+    c09_gen.regenerate(chk)  # T-ga: Generated/GaMethods.lean from _ga/_base.py, nsgaii/_sampler.py, _nsgaiii/_sampler.py
     if not getattr(chk, "no_prove", False):
-        chk.prove(["OptunaVerif.Props.C09", "OptunaVerif.Props.C13Tpe"])  # + split_sorted_by_number / split_halves_strictly_sorted
+        chk.prove(["OptunaVerif.Props.C09", c09_gen.MODULE, "OptunaVerif.Props.C13Tpe"])  # + split_sorted_by_number / split_halves_strictly_sorted
+        c09_gen.explain_proof_failure(chk)
     try:
         core.ensure_driver()
         ga_cache_k(chk)
+        c09_gen.ga_methods_k(chk)  # real BaseGASampler methods on shifted-id studies vs generated interpreter vs hand model
         from verif.props import c13_tpe
         c13_tpe.id_independence(chk, 300 if chk.tier == "quick" else 6000)  # real _split_trials under rewritten _trial_id's
         cells = plan(chk.rng, chk.tier)
@@ -641,6 +649,7 @@ def main(chk: core.Check) -> int:
         "objective programs use exact binary arithmetic; floats are compared exactly (as rationals); attribute payloads after one JSON round trip",
         "the objective catches only its own exception class; an exception raised by sampler / storage code ends the run and is part of the compared observation",
     ]
+    chk.trusted.append("T-ga (verif/translators/tga.py): the whitelisted source shapes are mapped to the primitives of Model/GaIR.lean as documented there")
     chk.trusted.append("verif/repro_k.py (program interpreter, canonicaliser, harness-side GA-read / key-order repairs used only to attribute a difference)")
     return chk.finish(search=search)
 
@@ -653,6 +662,7 @@ def replay(chk: core.Check, path: str) -> int:
     if "cell" not in w:
         print("witness is not a matrix cell (direct GA-cache witness): %s" % json.dumps(w)[:600])
         chk2 = core.Check("C09", "quick", 0)
+        c09_gen.regenerate(chk2)  # the sub-driver links the methods generated from the tree under test
         core.ensure_driver()
         ga_cache_k(chk2)
         hit = bool(chk2.known_hits or chk2.violations)
